@@ -460,7 +460,7 @@ int gsm48_decode_mobile_alloc(struct gsm_sysinfo_freq *freq,
 			      uint16_t *hopping, uint8_t *hopp_len, int si4)
 {
 	int i, j = 0;
-	uint16_t f[len << 3];
+	uint16_t f[8 << 3];
 
 	/* not more than 64 hopping indexes allowed in IE */
 	if (len > 8)
@@ -472,6 +472,10 @@ int gsm48_decode_mobile_alloc(struct gsm_sysinfo_freq *freq,
 		for (i = 0; i < 1024; i++)
 			freq[i].mask &= ~FREQ_TYPE_HOPP;
 	}
+
+	/* empty IE: no hopping frequencies */
+	if (len == 0)
+		return 0;
 
 	/* generating list of all frequencies (1..1023,0) */
 	for (i = 1; i <= 1024; i++) {
